@@ -2524,13 +2524,17 @@ func (r *client) resolveSerializer(message any) remote.Serializer {
 	if msgType == nil {
 		return r.dispatcher
 	}
+	// exact concrete type first, whatever the registration order: the default
+	// proto.Message entry is always registered ahead of the user's entries
 	for i := range r.serializers {
 		entry := &r.serializers[i]
-		if entry.iface.Kind() == reflect.Interface {
-			if msgType.Implements(entry.iface) {
-				return entry.serializer
-			}
-		} else if msgType == entry.iface {
+		if entry.iface.Kind() != reflect.Interface && msgType == entry.iface {
+			return entry.serializer
+		}
+	}
+	for i := range r.serializers {
+		entry := &r.serializers[i]
+		if entry.iface.Kind() == reflect.Interface && msgType.Implements(entry.iface) {
 			return entry.serializer
 		}
 	}
